@@ -26,7 +26,7 @@ ALL_INV = ("TypeOK Inv_C08_DeleteAfterAllInitialized Inv_C08_NoDeleteAfterFailur
 WEAK_EXPECT = {"anyInitialized": "Inv_C08_DeleteAfterAllInitialized", "vanishedCountsAsReady": "Inv_C08_DeleteAfterAllInitialized",
                "markBeforeCreate": "Inv_C08_RolledBackWhenQuiet", "noUnmark": "Inv_C08_RolledBackWhenQuiet",
                "noUntaint": "Inv_C08_RolledBackByAction", "noCleanup": "Inv_C08_RolledBackWhenQuiet",
-               "noHasAny": "Inv_C08_SingleCommandPerNode"}
+               "noHasAny": "Inv_C08_SingleCommandPerNode", "unmarkStopsAtMissing": "Inv_C08_RolledBackWhenQuiet"}
 
 
 def closed_models(run):
@@ -50,11 +50,12 @@ def closed_models(run):
             raise vlib.InfraError("vacuous closed model Orchestration, actions never taken: %s" % x.coverage_zero)
 
     def lead(r):
-        # the statement itself on the code as it is: TLC must reproduce the lead (F-C08-1); with the fix it holds
+        # spec mutation "queue.go before fix 43007e763" (F-C08-1: timeout declared after the deletes succeeded): must be rejected
         x = r.tlc("Orchestration", "Orchestration_Lead.cfg", workers=2, heap="2g", expect_violation=True)
         if x.violated != "Inv_C08_NoDeleteAfterFailure":
-            raise vlib.InfraError("the model of queue.go as it is no longer reproduces F-C08-1 (delete, then timeout rollback)")
-        r.notes.append("model of queue.go as it is (CodeMode=code) violates Inv_C08_NoDeleteAfterFailure without any fault: F-C08-1")
+            raise vlib.InfraError("the model of queue.go before the fix of F-C08-1 (CodeMode=wrapAlways) is not rejected by TLC")
+        with lock:
+            rejected.append("wrapAlways(F-C08-1)")
 
     def weak(name):
         def f(r):
@@ -74,9 +75,9 @@ def closed_models(run):
 
     def model(cfg, workers, heap="4g", timeout=1500):
         return lambda r: r.closed_model("Orchestration", cfg, workers=workers, heap=heap, timeout=timeout)
-    jobs = [mc, lead, model("Orchestration_FixedPure.cfg", 6), model("Orchestration_Live.cfg", 4, "3g")]
+    jobs = [mc, lead, model("Orchestration_Pure.cfg", 6), model("Orchestration_Live.cfg", 4, "3g")]
     if thorough:
-        jobs = [model("Orchestration_MC2.cfg", 10, "6g", 3000)] + jobs + [model("Orchestration_Fixed.cfg", 6)]
+        jobs = [model("Orchestration_MC2.cfg", 10, "6g", 3000), model("Orchestration_MC3.cfg", 6, "4g", 3000)] + jobs
     else:
         jobs.append(model("Orchestration_MC2q.cfg", 6))
     names = sorted(os.path.basename(c)[len("Orchestration_Weak_"):-4] for c in glob.glob(os.path.join(run.specdir, "Orchestration_Weak_*.cfg")))
@@ -117,7 +118,7 @@ def model_behaviours(run, rng):
 
 
 def systematic(run, rng):
-    base = [(n, st, None) for n, st in oc.base_paths() + oc.two_command_paths()] + oc.round_paths() + oc.extra_paths()
+    base = [(n, st, None) for n, st in oc.base_paths() + oc.two_command_paths() + oc.cand_vanish_paths()] + oc.round_paths() + oc.extra_paths()
     probe = [oc.scenario("base:" + n, st, {"kind": "base"}, log_reads=True, nodes_mut=mut) for n, st, mut in base]
     files = oc.record(run, probe, prefix="probe", procs=6)
     calls = {}
